@@ -687,8 +687,9 @@ def check(tier):
             "FilteredSound (what MsgTxsFiltered lists matches the active filters) is required on ALL the records "
             "held right after a filter toggle re-filtered, and at every other moment on the records up to the "
             "listed one (the code filters an ingested record against the records received so far)",
-            "a jump by transition id must land on the transition a scan finds only when that transition can be "
-            "shown (no filter state on, or the filtered view lists it)",
+            "a jump by transition id must land on the transition a scan finds only when the ScrollToTx handler ran "
+            "and that transition can be shown (no filter state on, or the filtered view lists it); a refused jump "
+            "is judged by what Client.TxIndex answers for the id right after the command",
             "FwdBackIdentity: Fwd(1) that moved, then Back(1); any amount when no filter is active",
             "GC of old messages (GcMsgs) is disabled by a high --max-mem; groups are never selected"]
     finally:
